@@ -210,6 +210,8 @@ def snap_diff(a, b, path="root", out=None):
         return out            # lazily inferred default geometry (function of the immutable mutable-variable lengths)
     if type(a) != type(b):
         out.append(path); return out
+    if isinstance(a, tuple) and isinstance(b, tuple) and (len(a) != len(b) or (a and b and a[0] != b[0] and isinstance(a[0], str) and isinstance(b[0], str))):
+        out.append(path + ":shape"); return out
     if isinstance(a, tuple) and len(a) == 3 and a and a[0] in ("obj", "pyobj") and isinstance(a[2], dict) and isinstance(b[2], dict):
         if a[1] != b[1]:
             out.append(path + ":class")
@@ -692,6 +694,77 @@ class Program:
         return "prog " + self.w.heap_text() + " " + ";".join(self.ops_txt)
 
 
+# ============================================================================ shrinking (failing-input search)
+def op_from_text(p, txt, remap, old_index):
+    """rebuild an op of a recorded program on a fresh world (same seed => same objects)"""
+    f = txt.split(":")
+    def resolve(r):
+        if r[0] == "@":
+            return r, p.w.live.get(int(r[1:]))
+        j = remap.get(int(r[1:]))
+        for k, o in p.pool:
+            if k == j:
+                return "$%d" % j, o
+        return None, None
+    def kwargs(t):
+        if t == ".":
+            return {}, "."
+        kw = {}
+        for item in t.split("&"):
+            i, k = item.split("=")
+            i, k = int(i), int(k)
+            if i < len(NAME_POOL):
+                kw[NAME_POOL[i]] = p.w.vals[NAME_POOL[i]][k - 1]
+            else:
+                kw[c01.UNKNOWN] = np.array([1.0])
+        return kw, t
+    ref, o = resolve(f[1])
+    remap[old_index] = len(p.ops_txt)
+    if o is None:
+        return None
+    if f[0] == "c":
+        kw, t = kwargs(f[2]); return ("cond", ref, o, kw, t)
+    if f[0] == "l":
+        kw, t = kwargs(f[2]); return ("logd", ref, o, kw, t)
+    if f[0] == "g":
+        names = _try(lambda: list(o.get_parameter_names()))
+        kw, t = p.kw_for(names, which=0) if not isinstance(names, Exception) else (None, None)
+        return ("grad", ref, o, kw, t) if kw else None
+    if f[0] == "s":
+        return ("sample", ref, o)
+    if f[0] == "t":
+        nm = _try(lambda: o.name)
+        return ("tolik", ref, o, p.w.vals[nm][int(f[2]) - 1], int(f[2])) if nm in p.w.vals else None
+    if f[0] == "a":
+        dref, dobj = resolve(f[2]); return ("apply", ref, o, dref, dobj) if dobj is not None else None
+    if f[0] == "G":
+        return ("gibbs", ref, o, int(f[2]))
+    return None
+
+
+def shrink(ctx, p, k, thorough):
+    """smallest sub-program still altering an original: the op and the ops its receiver was derived by; else the prefix"""
+    def deps(j, acc):
+        acc.add(j)
+        for r in p.ops_txt[j].split(":")[1:3]:
+            if r.startswith("$"):
+                deps(int(r[1:]), acc)
+        return acc
+    for subset in (sorted(deps(k, set())), list(range(k + 1))):
+        remap = {}
+        rng = random.Random(f"C11-{ctx.seed}-{p.idx}")
+        try:
+            q = Program(p.cuqi, p.tr, rng, thorough, p.idx,
+                        script=[(lambda prog, j=j: op_from_text(prog, p.ops_txt[j], remap, j)) for j in subset])
+            q.run()
+        except Exception:  # noqa
+            p.tr.stop()
+            continue
+        if q.first_bad is not None or q.sibling_bad is not None:
+            return {"ops": [p.ops_txt[j] for j in subset], "reproduced": True, "n_ops": len(subset)}
+    return {"ops": p.ops_txt[:k + 1], "reproduced": False, "n_ops": k + 1}
+
+
 # ============================================================================ comparison with the model
 def parse_model(out):
     body, sib = out.rsplit("|", 1)
@@ -759,9 +832,22 @@ def run_programs(ctx, cuqi, tracer, n, thorough):
     for idx in range(n):
         rng = random.Random(f"C11-{ctx.seed}-{idx}")
         try:
-            p = Program(cuqi, tracer, rng, thorough, idx).run()
+            p = Program(cuqi, tracer, rng, thorough, idx)
         except Exception as e:  # noqa  (world construction refused: not a case)
             ctx.note(f"program {idx} could not be built: {type(e).__name__}: {str(e)[:80]}")
+            continue
+        try:
+            p.run()
+        except Exception as e:  # noqa  the harness itself tripped over an object in an unexpected state
+            import traceback
+            tracer.stop()
+            k = len(p.ops_txt) - 1
+            desc = {"program": p.idx, "graph": p.w.desc(), "ops": p.ops_desc}
+            key = f"crash:{p.ops_desc[k]['op'] if k >= 0 else 'setup'}"
+            ctx.case("program-crashed", {"program": p.idx, "seed": ctx.seed})
+            ctx.disagree(key, desc, "program runs", f"{type(e).__name__}: {str(e)[:200]}", traceback.format_exc()[-600:])
+            ctx.fail(key, desc, "every object stays usable after the ops", f"{type(e).__name__}: {str(e)[:200]}",
+                     "inspecting the objects after the last op raised: an object was left in a state its own accessors reject")
             continue
         if p.ops_txt:
             progs.append(p)
@@ -803,7 +889,9 @@ def judge(ctx, p, out, desc):
         opk = p.ops_desc[k]["op"] if 0 <= k < len(p.ops_desc) else "?"
         recv = p.ops_desc[k]["on"] if 0 <= k < len(p.ops_desc) else "?"
         okey = f"alter:{opk}:{orig_kind(p, lab)}"
-        ctx.fail(okey, {**desc, "first_op_altering": k, "op": p.ops_desc[k] if 0 <= k < len(p.ops_desc) else None, "original": lab},
+        if okey not in ctx.c11_shrunk and 0 <= k < len(p.ops_txt):
+            ctx.c11_shrunk[okey] = shrink(ctx, p, k, ctx.tier == "thorough")
+        ctx.fail(okey, {**desc, "shrunk": ctx.c11_shrunk.get(okey), "first_op_altering": k, "op": p.ops_desc[k] if 0 <= k < len(p.ops_desc) else None, "original": lab},
                  "original unchanged (structure modulo benign caches, logd/gradient/sample/names)",
                  {"structure": sd, "behaviour": bd}, f"op #{k} ({opk} on {recv}) altered the original object '{lab}'")
     if p.sibling_bad is not None:
@@ -969,6 +1057,45 @@ def sampler_scenarios(ctx, cuqi, tracer, thorough):
             lambda: XS.RegularizedLinearRTO(pr_, maxit=5).sample(8), {"sampler": "cuqi.experimental.mcmc.RegularizedLinearRTO"})
 
 
+def deep_chains(ctx, cuqi):
+    """copies of copies of copies …: the name (and the parameter names, and the value) of a conditioned copy must be
+    those of its original at every nesting depth (model: `copy_keeps_name` by well-founded recursion, no depth limit)"""
+    from cuqi.distribution import Gaussian
+    lines, metas = [], []
+    for depth in (30, 300, 900, 1200, 2500):
+        with quiet():
+            x = Gaussian(np.zeros(2), lambda s: s, name="x")
+            d = x
+            for _ in range(depth):
+                d = d()
+        nm = _try(lambda: d.name)
+        pn = _try(lambda: list(d.get_parameter_names()))
+        lv = _try(lambda: float(d.logd(s=np.array([2.0]), x=np.array([1.0, -1.0]))))
+        ref = _try(lambda: float(x.logd(s=np.array([2.0]), x=np.array([1.0, -1.0]))))
+        metas.append((depth, nm, pn, lv, ref))
+        # the executable model is run to depth <= 250 (its field maps are closures: cost grows cubically); beyond that its
+        # answer is the same by theorem (copy_keeps_name / name_preserved hold at every depth)
+        md = min(depth, 250)
+        lines.append("prog g:;d:fam=n0,name=n0,geom=r0,s0=n0,s1=f1/5 " + ";".join(["c:@1:."] + [f"c:${k}:." for k in range(md - 1)]))
+    outs = ctx.lean.drive(lines)
+    for (depth, nm, pn, lv, ref), out in zip(metas, outs):
+        recs, sib = parse_model(out)
+        m = recs[-1]
+        desc = {"chain": "d = d() repeated", "depth": depth, "original": "Gaussian(zeros(2), lambda s: s, name='x')"}
+        ctx.case("deep-chain", desc)
+        key = "name:deep-chain:" + ("depth>=1000" if depth >= 1000 else "depth<1000")
+        impl = {"name": "exc:" + type(nm).__name__ if isinstance(nm, Exception) else nm,
+                "parameter_names": "exc:" + type(pn).__name__ if isinstance(pn, Exception) else pn,
+                "logd": "exc:" + type(lv).__name__ if isinstance(lv, Exception) else lv}
+        model = {"name": NAME_POOL[m["name"]] if m.get("name") is not None else None,
+                 "parameter_names": [NAME_POOL[i] for i in (m.get("names") or [])]}
+        if impl["name"] != model["name"] or impl["parameter_names"] != model["parameter_names"]:
+            ctx.disagree(key, desc, model, impl, "name / parameter names of a deeply nested conditioned copy")
+        if impl["name"] != "x" or impl["parameter_names"] != ["s", "x"] or isinstance(lv, Exception) or lv != ref:
+            ctx.fail(key, desc, {"name": "x", "parameter_names": ["s", "x"], "logd": ref}, impl,
+                     "a conditioned copy (of a copy of a copy …) does not report the name / behaviour of its original")
+
+
 def collect_ids(o, seen, depth=0):
     if id(o) in seen or depth > 8:
         return
@@ -999,11 +1126,13 @@ def run(ctx):
     ctx.assumptions += ["explicit distribution names (no stack-based name inference)",
                         "user callables do not mutate their arguments or captured arrays (in-place numpy mutation inside user callables is out of scope)",
                         "behavioural fingerprints are compared exactly (same code path, same inputs, single thread)"]
+    ctx.c11_shrunk = {}
     tracer = Tracer(cuqi)
     tracer.install()
     try:
-        n = 150 if not thorough else 150 * ctx.scale * 3
+        n = 150 if not thorough else 150 * ctx.scale
         run_programs(ctx, cuqi, tracer, n, thorough)
         sampler_scenarios(ctx, cuqi, tracer, thorough)
+        deep_chains(ctx, cuqi)
     finally:
         tracer.uninstall()
